@@ -137,7 +137,7 @@ def make_project(root, paths, mul=False, tests=("check_p",), setup=False):
 
 
 def run_halmos(root, script, early_exit=False, cache_solver=False, timeout_ms=3000, stale_read=None,
-               extra=(), wall=120, threads=None):
+               extra=(), wall=900, threads=None):
     """Runs halmos on the project with the scripted solver. Returns dict(rc, status{funsig:label}, json, log, calls)."""
     root = Path(root)
     script_file = root / "script.json"
@@ -185,10 +185,11 @@ def run_halmos(root, script, early_exit=False, cache_solver=False, timeout_ms=30
             js = json.loads(out_json.read_text())
         except Exception:  # noqa: BLE001
             js = None
+    smt_files = sorted(str(f.relative_to(root / "smt")) for f in (root / "smt").rglob("*.smt2")) if (root / "smt").exists() else []
     called = []
     if calls.exists():
         called = [ln.split() for ln in calls.read_text().splitlines() if ln.strip()]
-    return {"rc": rc, "status": status, "json": js, "log": plain, "calls": called}
+    return {"rc": rc, "status": status, "json": js, "log": plain, "calls": called, "smt_files": smt_files}
 
 
 if __name__ == "__main__":
